@@ -414,76 +414,159 @@ func shortType(t string) string {
 
 func c05R6(h H) {
 	r := h.r
-	r.Rule("R6", "retry loop shape: the keepRetrying closure returns false only for context.Canceled or elapsed >= GetTryDuration(); the function's final return after the loop reports 502", 2)
+	r.Rule("R6", "retry loop shape: every way of leaving the retry loop without returning (the way to the final 502) lies behind 'the client cancelled' (error == context.Canceled) or 'the try duration is spent' (time.Since(start) >= GetTryDuration()) — tested in the loop itself or in a function whose every `return false` lies behind one of the two; the function's final return after the loop reports 502", 2)
 	sv := h.fn("R6", pxPkg, "Proxy.ServeHTTP")
 	if sv == nil {
 		return
 	}
-	// closure containing time.Since and GetTryDuration
-	var keep *ssa.Function
-	for _, a := range sv.AnonFuncs {
-		since, dur := false, false
-		allInstrs(a, func(in ssa.Instruction) {
-			if isCallTo(in, "time.Since") {
-				since = true
-			}
-			if c := callOf(in); c != nil && c.IsInvoke() && c.Method.Name() == "GetTryDuration" {
-				dur = true
-			}
-		})
-		if since && dur {
-			keep = a
+	stopAtom := func(g guardInfo) bool {
+		b, ok := g.Cond.(*ssa.BinOp)
+		if !ok {
+			return false
 		}
+		if (b.Op == token.EQL && g.Pos) || (b.Op == token.NEQ && !g.Pos) {
+			if isGlobalLoad(b.Y, "Canceled") || isGlobalLoad(b.X, "Canceled") {
+				return true
+			}
+		}
+		since := func(v ssa.Value) bool { return isResultOf(v, 0, "time.Since") }
+		dur := func(v ssa.Value) bool { return isInvokeOf(v, "GetTryDuration") }
+		switch {
+		case b.Op == token.GEQ && g.Pos && since(b.X) && dur(b.Y), b.Op == token.LSS && !g.Pos && since(b.X) && dur(b.Y):
+			return true
+		case b.Op == token.LEQ && g.Pos && dur(b.X) && since(b.Y), b.Op == token.GTR && !g.Pos && dur(b.X) && since(b.Y):
+			return true
+		}
+		return false
 	}
-	if keep == nil {
-		r.Unresolve("R6", "Proxy.ServeHTTP: keepRetrying closure (time.Since vs GetTryDuration) not found")
-	} else {
-		okAll := true
+	// a predicate function: every `return false` is explained by a stop condition
+	var falseMeansStop func(f *ssa.Function) (bool, []string)
+	falseMeansStop = func(f *ssa.Function) (bool, []string) {
+		okAll, n := true, 0
 		var facts []string
-		for _, e := range exitsOf(keep) {
+		for _, e := range exitsOf(f) {
 			rt, ok := e.(*ssa.Return)
 			if !ok || len(rt.Results) != 1 {
 				continue
 			}
-			c, isC := rt.Results[0].(*ssa.Const)
-			if !isC || c.Value.String() != "false" {
-				continue
-			}
-			// guards of this `return false`
-			rec := false
-			for _, g := range guardAtoms(keep, nil, rt) {
-				d := describe(g.Cond)
-				facts = append(facts, d)
-				if b, ok := g.Cond.(*ssa.BinOp); ok && g.Pos {
-					if b.Op == token.EQL && (isGlobalLoad(b.Y, "Canceled") || isGlobalLoad(b.X, "Canceled")) {
-						rec = true
-					}
-					if b.Op == token.GEQ && isResultOf(b.X, 0, "time.Since") && isInvokeOf(b.Y, "GetTryDuration") {
+			for _, v := range valuesAt(f, rt.Results[0], rt) {
+				c, isC := v.(*ssa.Const)
+				if isC && c.Value != nil && c.Value.String() == "true" {
+					continue
+				}
+				n++
+				rec := false
+				for _, g := range guardAtoms(f, nil, rt) {
+					facts = append(facts, describe(g.Cond))
+					if stopAtom(g) {
 						rec = true
 					}
 				}
-			}
-			if !rec {
-				okAll = false
+				if !rec {
+					okAll = false
+				}
 			}
 		}
-		r.Check(okAll, "R6", "proxy.Proxy.ServeHTTP$keepRetrying/stop-conditions", keep.Pos(), "retrying stops only when the client cancelled or the configured try duration is spent", facts...)
+		return okAll && n > 0, facts
+	}
+	var sel ssa.Instruction
+	allInstrs(sv, func(in ssa.Instruction) {
+		if c := callOf(in); c != nil && c.IsInvoke() && c.Method.Name() == "Select" {
+			sel = in
+		}
+	})
+	if sel == nil {
+		r.Unresolve("R6", "Proxy.ServeHTTP: no Select invoke")
+		return
+	}
+	hd, loop := loopOf(sel.Block())
+	if hd == nil {
+		r.Unresolve("R6", "Proxy.ServeHTTP: the Select invoke is not inside a loop")
+		return
+	}
+	nExit := 0
+	for _, e := range loopExitEdges(loop) {
+		target := e.From.Succs[e.Idx]
+		// the exhausted path is the one from which the 502 return is reachable; other exits are early returns
+		// from inside the loop (success, 413, 499, 500)
+		to502 := false
+		if f := firstInstr(target); f != nil {
+			chk := func(x ssa.Instruction) bool {
+				if rt, ok := x.(*ssa.Return); ok {
+					for _, v := range valuesAt(sv, retResults(rt)[0], rt) {
+						if n, ok := constInt(v); ok && n == 502 {
+							to502 = true
+						}
+					}
+				}
+				return !to502
+			}
+			if chk(f) {
+				reach(sv, f, cut{}, chk)
+			}
+		}
+		if !to502 {
+			continue
+		}
+		nExit++
+		term := lastInstr(e.From)
+		explained := false
+		var facts []string
+		atoms := guardAtoms(sv, firstInstr(hd), term)
+		if i, ok := term.(*ssa.If); ok {
+			v, flip := stripNot(i.Cond)
+			atoms = append(atoms, conjAtoms(sv, v, (e.Idx == 0) != flip, 0)...)
+		}
+		for _, g := range atoms {
+			facts = append(facts, describe(g.Cond))
+			if stopAtom(g) {
+				explained = true
+			}
+			if c, ok := g.Cond.(*ssa.Call); ok && !g.Pos {
+				if f := calleeFunc(&c.Call); f != nil && len(f.Blocks) > 0 {
+					if ok2, fs := falseMeansStop(f); ok2 {
+						explained = true
+					} else {
+						facts = append(facts, fs...)
+					}
+				}
+			}
+		}
+		r.Check(explained, "R6", sprintf("proxy.Proxy.ServeHTTP/retry-loop-exit#%d", nExit), term.Pos(), "retrying stops only when the client cancelled or the configured try duration is spent", facts...)
+	}
+	if nExit == 0 {
+		r.Unresolve("R6", "Proxy.ServeHTTP: the retry loop has no exit towards the exhausted path")
 	}
 	// final return 502
 	last := false
-	for _, e := range exitsOf(sv) {
-		if rt, ok := e.(*ssa.Return); ok && !inLoop(rt.Block()) {
-			_ = rt
-		}
-	}
-	allInstrs(sv, func(in ssa.Instruction) {
-		if st, ok := in.(*ssa.Store); ok {
-			if n, ok := constInt(st.Val); ok && n == 502 {
-				last = true
+	for _, g := range withHelpers(sv, 2) {
+		allInstrs(g, func(in ssa.Instruction) {
+			switch t := in.(type) {
+			case *ssa.Store:
+				if n, ok := constInt(t.Val); ok && n == 502 {
+					last = true
+				}
+			case *ssa.Return:
+				for _, v := range t.Results {
+					if n, ok := constInt(v); ok && n == 502 {
+						last = true
+					}
+				}
 			}
-		}
-	})
+		})
+	}
 	r.Check(last, "R6", "proxy.Proxy.ServeHTTP/exhausted-502", sv.Pos(), "when retries are exhausted the handler reports 502 Bad Gateway")
+}
+
+// returnsConstStatusOrNil: the block ends in a return whose status result is a constant (an early return from the loop).
+func returnsConstStatusOrNil(b *ssa.BasicBlock) bool {
+	rt, ok := lastInstr(b).(*ssa.Return)
+	if !ok || len(rt.Results) == 0 {
+		return false
+	}
+	res := retResults(rt)
+	_, isC := res[0].(*ssa.Const)
+	return isC
 }
 
 func isGlobalLoad(v ssa.Value, name string) bool {
